@@ -58,6 +58,60 @@ Proof.
   rewrite app_length. destruct t; cbn [d4_kind length]; lia.
 Qed.
 
+(* ---------- table steps, read as implications (no conformance needed) ---------- *)
+Lemma addn_In a : forall b x, In x (addn a b) <-> In x a \/ In x b.
+Proof.
+  induction a as [|y a IH]; intros b x; cbn [addn]; [cbn [In]; tauto|].
+  destruct (memn y b) eqn:E; rewrite IH; cbn [In].
+  - apply memn_In in E. split; [tauto|]. intros [[<-|H]|H]; tauto.
+  - tauto.
+Qed.
+
+Lemma all_mentioned_In toks f : In f (all_mentioned toks) <->
+  exists from to fs, In (DEdge from to fs) toks /\ In f (lit_vars fs).
+Proof.
+  unfold all_mentioned. induction toks as [|t r IH]; cbn [fold_right].
+  - split; [intros []|intros [? [? [? [[] _]]]]].
+  - destruct t as [from to fs| | | |]; try (rewrite IH; split; intros [a [b [c [H1 H2]]]]; exists a, b, c;
+      (split; [|exact H2]); [now right|destruct H1 as [E|H1]; [discriminate|exact H1]]).
+    rewrite addn_In, IH. split.
+    + intros [H|[a [b [c [H1 H2]]]]]; [exists from, to, fs; split; [now left|exact H]|exists a, b, c; split; [now right|exact H2]].
+    + intros [a [b [c [[E|H1] H2]]]]; [injection E as <- <- <-; now left|right; now exists a, b, c].
+Qed.
+
+Lemma stepL_In toks D R L i f : In f (stepL toks D R L i) ->
+  get D i false = false /\ get R i false = false /\ (kind toks i = Some KAnd \/ kind toks i = Some KOr) /\
+  exists e, In e (edges toks i) /\ get D (snd e) false = false /\
+            (In f (lit_vars (fst e)) \/ In f (get L (snd e) [])).
+Proof.
+  unfold stepL. destruct (get D i false); [intros []|]. destruct (get R i false); [intros []|]. cbn [orb].
+  destruct (is_kind toks i KAnd || is_kind toks i KOr) eqn:Ek; [|intros []].
+  intros H. split; [reflexivity|]. split; [reflexivity|]. split.
+  { unfold is_kind in Ek. destruct (kind toks i) as [[| | |]|]; cbn in Ek; try discriminate; auto. }
+  induction (edges toks i) as [|e r IH]; cbn [fold_right] in H; [destruct H|].
+  destruct (get D (snd e) false) eqn:Ed.
+  - destruct (IH H) as [e' [H1 H2]]. exists e'. split; [now right|exact H2].
+  - rewrite !addn_In in H. destruct H as [H|[H|H]].
+    + exists e. split; [now left|]. split; [exact Ed|now left].
+    + exists e. split; [now left|]. split; [exact Ed|now right].
+    + destruct (IH H) as [e' [H1 H2]]. exists e'. split; [now right|exact H2].
+Qed.
+
+Lemma stepD_false toks D i : kind toks i = Some KFalse -> stepD toks D i = true.
+Proof. intros Hk. unfold stepD, is_kind. now rewrite Hk. Qed.
+Lemma stepD_and toks D i e : kind toks i = Some KAnd -> In e (edges toks i) -> get D (snd e) false = true ->
+  stepD toks D i = true.
+Proof.
+  intros Hk He Hd. unfold stepD, is_kind. rewrite Hk. cbn [orb andb]. apply existsb_exists. now exists e.
+Qed.
+Lemma stepTR_true toks R i : kind toks i = Some KTrue -> stepTR toks R i = true.
+Proof. intros Hk. unfold stepTR, is_kind. now rewrite Hk. Qed.
+Lemma stepTR_or toks R i to : kind toks i = Some KOr -> In ([], to) (edges toks i) -> get R to false = true ->
+  stepTR toks R i = true.
+Proof.
+  intros Hk He Hr. unfold stepTR, is_kind. rewrite Hk. cbn [orb andb]. apply existsb_exists. exists ([], to). now split.
+Qed.
+
 Section Conf.
 Variables (toks : list d4token) (n : nat).
 Hypothesis Hconf : d4_conform toks n = true.
@@ -267,6 +321,31 @@ Proof.
   destruct (edges toks i) as [|[[|l ls] to] [|e2 r]] eqn:Ee; try (right; now apply Hgen).
   left. now exists to.
 Qed.
+(* ---------- the tables D, TR, L ---------- *)
+Lemma cf_D i : 1 <= i <= K -> get D i false = stepD toks D i.
+Proof.
+  intros Hi. pose proof (cf_node i Hi) as Hn. unfold node_ok in Hn.
+  repeat (apply andb_true_iff in Hn; destruct Hn as [Hn ?]).
+  match goal with Hl : Bool.eqb (get D i false) _ = true |- _ => exact (eqb_prop _ _ Hl) end.
+Qed.
+
+Lemma cf_R i : 1 <= i <= K -> get R i false = stepTR toks R i.
+Proof.
+  intros Hi. pose proof (cf_node i Hi) as Hn. unfold node_ok in Hn.
+  repeat (apply andb_true_iff in Hn; destruct Hn as [Hn ?]).
+  match goal with Hl : Bool.eqb (get R i false) _ = true |- _ => exact (eqb_prop _ _ Hl) end.
+Qed.
+
+Lemma cf_L i f : 1 <= i <= K -> In f (get L i []) -> In f (stepL toks D R L i).
+Proof.
+  intros Hi. pose proof (cf_node i Hi) as Hn. unfold node_ok in Hn.
+  repeat (apply andb_true_iff in Hn; destruct Hn as [Hn ?]).
+  match goal with Hl : incln (get L i []) _ = true |- _ => exact (incln_incl _ _ Hl f) end.
+Qed.
+
+Lemma cf_mentioned f : In f (all_mentioned toks) -> In f (get L 1 []).
+Proof. destruct cf_split as [_ [_ [_ Hm]]]. exact (incln_incl _ _ Hm f). Qed.
+
 (* the unlabelled edges of an or node have distinct targets *)
 Lemma or_ok_nodup i : or_ok toks i = true ->
   NoDup (map snd (filter (fun e : list Z * nat => match fst e with [] => true | _ => false end) (edges toks i))).
